@@ -367,7 +367,12 @@ class WsgiApplication(HttpBase):
             return [HTTP_404.encode('ascii')]
 
         if self._wsdl is None:
-            self._wsdl = self.doc.wsdl11.get_interface_document()
+            # pick up a document somebody else has built in the meantime, but
+            # never store None: that could wipe out a document that another
+            # thread has cached since the test above.
+            wsdl = self.doc.wsdl11.get_interface_document()
+            if wsdl is not None:
+                self._wsdl = wsdl
 
         ctx.transport.wsdl = self._wsdl
 
